@@ -285,6 +285,7 @@ type c01Case struct {
 	Handle  string  `json:"handle"`
 	Ops     []sOp   `json:"ops,omitempty"`
 	Threads [][]sOp `json:"threads,omitempty"`
+	Prelude []sOp   `json:"prelude,omitempty"` // conc: run sequentially before the threads start (recorded in the history)
 }
 
 func runSeqCase(t *testing.T, dir string, c c01Case) (coq string, panics []string, flags map[string]bool) {
@@ -366,7 +367,7 @@ func runSeqCase(t *testing.T, dir string, c c01Case) (coq string, panics []strin
 
 // runConcCase runs threads concurrently and records an invocation/response history.
 func runConcCase(t *testing.T, dir string, c c01Case) (coq string, panics []string) {
-	synctest.Test(t, func(t *testing.T) {
+	body := func(t *testing.T) {
 		hs := makeHandles(t, dir, []string{c.Handle})
 		h := hs[0]
 
@@ -383,6 +384,30 @@ func runConcCase(t *testing.T, dir string, c c01Case) (coq string, panics []stri
 			items []string
 		)
 
+		do := func(o sOp) {
+			if o.Op == "pause" { // lets the other threads get ahead; not part of the history
+				time.Sleep(time.Millisecond)
+
+				return
+			}
+
+			inv := stamp.Add(1)
+			cop, cobs, p := execOp(ctx, h.st, o, t0, lastVer, &mu)
+			res := stamp.Add(1)
+
+			mu.Lock()
+			if p != "" {
+				panics = append(panics, p)
+			}
+
+			items = append(items, fmt.Sprintf("(%s, %s, %s, %s)", coqN(uint64(inv)), coqN(uint64(res)), cop, cobs))
+			mu.Unlock()
+		}
+
+		for _, o := range c.Prelude {
+			do(o)
+		}
+
 		for _, ops := range c.Threads {
 			wg.Add(1)
 
@@ -390,17 +415,7 @@ func runConcCase(t *testing.T, dir string, c c01Case) (coq string, panics []stri
 				defer wg.Done()
 
 				for _, o := range ops {
-					inv := stamp.Add(1)
-					cop, cobs, p := execOp(ctx, h.st, o, t0, lastVer, &mu)
-					res := stamp.Add(1)
-
-					mu.Lock()
-					if p != "" {
-						panics = append(panics, p)
-					}
-
-					items = append(items, fmt.Sprintf("(%s, %s, %s, %s)", coqN(uint64(inv)), coqN(uint64(res)), cop, cobs))
-					mu.Unlock()
+					do(o)
 				}
 			}()
 		}
@@ -408,7 +423,15 @@ func runConcCase(t *testing.T, dir string, c c01Case) (coq string, panics []stri
 		wg.Wait()
 
 		coq = fmt.Sprintf("(%s, %s)", coqBool(!h.remote), coqList(items))
-	})
+	}
+
+	if c.Handle == "slowstore" {
+		// real time: a goroutine waiting for the collection mutex is not durably blocked, so a synctest bubble could not
+		// let the store call's sleep elapse
+		body(t)
+	} else {
+		synctest.Test(t, body)
+	}
 
 	return coq, panics
 }
@@ -475,6 +498,64 @@ func TestC01(t *testing.T) {
 				ops := []sOp{{Op: "create", NS: "n2", Typ: "T", ID: "a", VerRel: "undef", Payload: fmt.Sprintf("p%d", ti)}}
 				ops = append(ops, sOp{Op: "create", NS: "n2", Typ: "T", ID: fmt.Sprintf("o%d", ti), VerRel: "undef", Payload: "p0"})
 				ops = append(ops, sOp{Op: pick(r, []string{"get", "list"}), NS: "n2", Typ: "T", ID: "a"})
+				c.Threads = append(c.Threads, ops)
+			}
+
+			cases = append(cases, c)
+		}
+
+		// targeted shapes for the slow store: the second caller arrives 1 ms into the first caller's 3 ms store call
+		for range tier(6, 60) {
+			a := sOp{NS: "n1", Typ: "T", ID: "a"}
+			destroy, update, updateFin := a, a, a
+			destroy.Op = "destroy"
+			update.Op, update.VerRel, update.Payload = "update", "cur", "q"
+			updateFin.Op, updateFin.VerRel, updateFin.Fins = "update", "cur", []string{"f1"}
+
+			for _, pair := range [][2]sOp{{destroy, updateFin}, {destroy, destroy}, {update, updateFin}, {updateFin, destroy}, {update, destroy}} {
+				cases = append(cases, c01Case{Kind: "conc", Handle: "slowstore",
+					Prelude: []sOp{{Op: "create", NS: "n1", Typ: "T", ID: "a", VerRel: "undef", Payload: "p"}},
+					Threads: [][]sOp{{pair[0], {Op: "get", NS: "n1", Typ: "T", ID: "a"}}, {{Op: "pause"}, pair[1], {Op: "get", NS: "n1", Typ: "T", ID: "a"}}}})
+			}
+		}
+
+		// a write in progress inside a slow backing store while other callers arrive: the collection lock must cover the
+		// store call (validation, store write, memory update and publish are one atomic step)
+		for range tier(40, 800) {
+			c := c01Case{Kind: "conc", Handle: "slowstore"}
+			fins := []string(nil)
+
+			if r.chance(1, 4) {
+				fins = []string{"f0"}
+			}
+
+			c.Prelude = []sOp{{Op: "create", NS: "n1", Typ: "T", ID: "a", VerRel: "undef", Payload: "p", Owner: pick(r, []string{"", "", "o1"}), Fins: fins}}
+
+			mkOp := func() sOp {
+				switch r.intn(6) {
+				case 0, 1:
+					return sOp{Op: "destroy", NS: "n1", Typ: "T", ID: "a", Owner: c.Prelude[0].Owner}
+				case 2:
+					return sOp{Op: "update", NS: "n1", Typ: "T", ID: "a", VerRel: "cur", Owner: c.Prelude[0].Owner, ObjOwner: c.Prelude[0].Owner, Fins: []string{"f1"}, Payload: "q"}
+				case 3:
+					return sOp{Op: "update", NS: "n1", Typ: "T", ID: "a", VerRel: "cur", Owner: c.Prelude[0].Owner, ObjOwner: c.Prelude[0].Owner, Tearing: true, Exp: "any", Payload: "r"}
+				case 4:
+					return sOp{Op: "create", NS: "n1", Typ: "T", ID: "a", VerRel: "undef", Payload: "again", Owner: c.Prelude[0].Owner}
+				default:
+					return sOp{Op: pick(r, []string{"get", "list"}), NS: "n1", Typ: "T", ID: "a"}
+				}
+			}
+
+			for ti := range 2 + r.intn(2) {
+				var ops []sOp
+				if ti > 0 && r.chance(1, 2) {
+					ops = append(ops, sOp{Op: "pause"})
+				}
+
+				for range 1 + r.intn(2) {
+					ops = append(ops, mkOp())
+				}
+
 				c.Threads = append(c.Threads, ops)
 			}
 
